@@ -57,14 +57,19 @@ def run_variant(prop: str, v: Dict[str, Any], repo: str, renamed: bool = False) 
                 res["detail"] = f"`{e['old'][:60]}` occurs {src.count(e['old'])} times in {e['file']}"
                 return res
             src = src.replace(e["old"], e["new"])
+            with open(path, "w") as fh:
+                fh.write(src)
+        # the edited files must compile once *all* edits are in (a change can span several hunks of one file)
+        for e in edits:
+            path = os.path.join(scratch, e["file"])
+            with open(path) as fh:
+                src = fh.read()
             try:
                 compile(src, path, "exec")
             except SyntaxError as ex:
                 res["status"] = "does-not-compile"
                 res["detail"] = str(ex)
                 return res
-            with open(path, "w") as fh:
-                fh.write(src)
         if renamed:
             from .alpha import alpha_rename, flatten_else, reshape_logic
 
